@@ -363,7 +363,12 @@ def run(chk):
     c1["Onew"][0][0][0][0] = [c1["Onew"][0][0][0][0][0] + c1["Onew"][0][0][0][0][1], c1["Onew"][0][0][0][0][1]]
     gg = next(r for r in grecs if r["exact"] and not r["err"])
     c2 = copy.deepcopy(gg)
-    c2["Onew"][1][0][1][0] = [c2["Onew"][1][0][1][0][0] + c2["Onew"][1][0][1][0][1], c2["Onew"][1][0][1][0][1]]
+    # bump a whole output row (every input flavour and grid point), so that the corruption is
+    # visible whatever the test inputs of this seed are
+    for _b in range(len(c2["Onew"][1][0])):
+        for _k in range(len(c2["Onew"][1][0][_b])):
+            _e = c2["Onew"][1][0][_b][_k]
+            c2["Onew"][1][0][_b][_k] = [_e[0] + _e[1], _e[1]]
     ge = next(r for r in frecs if r["via"] == "to_evol" and r["exact"] and not r["err"] and r["U"])
     c3 = copy.deepcopy(ge)
     c3["U"][4][5] += 1
